@@ -6,7 +6,7 @@ import shutil
 from . import matrix, worker
 from .common import REPO, digest, pmap
 
-RE_MARK = re.compile(r"#aa:(only|exclude)( .*)?$")
+RE_MARK = re.compile(r"#aa:(only|exclude)( .*)?$", re.M)
 RE_OTHER = re.compile(r"#aa:(dbus|exec|stack)\b")
 TARGETS = [(d, a, v) for d in matrix.DISTS for a in matrix.ABIS for v in matrix.VERS]
 
@@ -270,6 +270,7 @@ def run(ctx):
                     ctx.samples.append({"input": n, "target": "%s/abi%s/apparmor%s" % (d, a, v), "markers": marks, "guards_false_for_target": removed_,
                                         "non_blank_lines_expected": len(exp_)})
                     break
+    ctx.require(len(files) >= 10 and len(tap_cases) >= 20, "only %d shipped files with only/exclude markers, %d tap texts" % (len(files), len(tap_cases)))
     ctx.extra["shipped_files"] = len(files)
     ctx.extra["targets"] = len(TARGETS)
     ctx.extra["tap_texts"] = len(tap_cases)
